@@ -211,6 +211,17 @@ class World(object):
             self.watch.append(('instr', i, canon.ser_instr_input(i)))
         return canon.ser_instr(i)
 
+    def op_render(self, idx, op, resolved, mut):
+        # render (again) an instruction object obtained by an earlier dis() of this history
+        i = self.instr_arg(op)
+        if i is None:
+            return None
+        before = canon.ser_instr_input(i)
+        out = [canon.render(i), canon.render(i, 'att_syntax')]
+        if canon.ser_instr_input(i) != before:
+            mut.append('instr')
+        return out
+
     def op_asm(self, idx, op, resolved, mut):
         s = sut()
         out = s.A.x86mnemo.asm(op['line'])
@@ -711,6 +722,9 @@ def gen_history(rng):
                 ops.append(op)
                 if 'mode' not in op:
                     dis_results.append((len(ops) - 1, hx))
+            elif y < 0.27 and dis_results:
+                j, hx = rng.choice(dis_results)
+                ops.append({'op': 'render', 'hex': hx, 'iref': j, 'c': c})
             elif y < 0.38:
                 if rng.random() < bad_p:
                     line = rng.choice(gen.INTEL_BAD)
